@@ -33,6 +33,12 @@ Theorem C17_step_bound_term PhiR (H : cdf_like PhiR) (Hp : is_lim PhiR p_infty 1
           + 2 * int_x R (Rops PhiR) m s (Some 0) None * c1 * c0 + int_1 R (Rops PhiR) m s (Some 0) None * v).
 Proof. exact (C16R_proofs.C17_step_bound_term PhiR H Hp m s c0 c1 v). Qed.
 
+(* cosh-1 link: the two log-domain terms proved in props/C16.v (C16_expected_cosh_noise: exponents +-(w0 + w'mu) + w'Sigma w/2 - ln 2) sum to
+   the closed form of E[cosh h - 1] *)
+Theorem C16_cosh_noise_closed_form (m v : R) : exp (m + v / 2) / 2 + exp (- m + v / 2) / 2 - 1 = exp (v / 2) * cosh m - 1.
+Proof. exact (cosh_noise_closed_form m v). Qed.
+
+Print Assumptions C16_cosh_noise_closed_form.
 Print Assumptions C16_step_noise.
 Print Assumptions C16_relu_noise.
 Print Assumptions C16_second_moment_half_line.
